@@ -114,6 +114,8 @@ class Builder(NullCell):
         return self
 
     def store_uint(self, value: int, size: int):
+        if size == 0 and value == 0:
+            return self  # (## 0) holds no bits
         self._bits.extend(int2ba(value, size, signed=False))
         return self
 
